@@ -1053,6 +1053,13 @@ impl Campaign for SockCampaign {
 // C13: address resolution corner (first address used, none → InvalidInput)
 
 pub fn addr_resolution_checks() -> Vec<String> {
+    match catch(addr_resolution_checks_inner) {
+        Ok(v) => v,
+        Err(p) => vec![format!("constructing a UDP sink from a ToSocketAddrs that yields no address panicked: {}", p)],
+    }
+}
+
+fn addr_resolution_checks_inner() -> Vec<String> {
     let mut bad = Vec::new();
     let empty: [SocketAddr; 0] = [];
     let s = UdpSocket::bind("127.0.0.1:0").unwrap();
@@ -1244,6 +1251,177 @@ impl Campaign for ConcSockCampaign {
             nontrivial: truth.0 > 0 && truth.2 > 0,
             fingerprint: util::hash_json(case),
             classes: vec!["concurrent emitters on one unbuffered sink"],
+        }
+    }
+}
+
+
+// ---------------------------------------------------------------------------
+// flush() behind an emit that is blocked inside the sink (blocking Unix socket
+// whose receiver queue is full): the flush must not report Ok while the metrics
+// acknowledged before it cannot have been sent.
+
+#[derive(Serialize, Deserialize, Clone, Debug)]
+pub struct BlockedFlushCase {
+    pub cap: u16,
+    pub metric_len: u8,
+}
+
+pub struct BlockedFlushCampaign {
+    pub name: &'static str,
+}
+
+impl Campaign for BlockedFlushCampaign {
+    type Case = BlockedFlushCase;
+    fn name(&self) -> &'static str {
+        self.name
+    }
+    fn max_shrink_iters(&self) -> u32 {
+        6
+    }
+    fn strategy(&self, _tier: Tier) -> BoxedStrategy<BlockedFlushCase> {
+        (prop_oneof![Just(16u16), Just(32), Just(64), 16u16..200], 1u8..12)
+            .prop_map(|(cap, metric_len)| BlockedFlushCase { cap, metric_len })
+            .boxed()
+    }
+    fn check(&self, case: &BlockedFlushCase, ctx: &Ctx) -> Outcome {
+        let w = ctx.w();
+        let mut rx = match Rx::new(Transport::Unix) {
+            Ok(r) => r,
+            Err(e) => {
+                util::mark_inconclusive(&e.to_string());
+                return Outcome::ok();
+            }
+        };
+        let path = match &rx {
+            Rx::Unix { path, .. } => path.clone(),
+            _ => unreachable!(),
+        };
+        let sock = match UnixDatagram::unbound() {
+            Ok(s) => s,
+            Err(e) => {
+                util::mark_inconclusive(&e.to_string());
+                return Outcome::ok();
+            }
+        };
+        // blocking sender
+        let sink = Arc::new(BufferedUnixMetricSink::with_capacity(&path, sock, case.cap as usize));
+        rx.clog();
+        let (ptx, prx) = crossbeam_channel::unbounded::<String>();
+        let sink_a = sink.clone();
+        let mlen = case.metric_len as usize;
+        let emitter = std::thread::spawn(move || {
+            // emits until told to stop; the emit that has to flush blocks in sendto
+            for i in 0..10_000usize {
+                let m = format!("{:0width$}:{}|c", i, 1, width = mlen);
+                match sink_a.emit(&m) {
+                    Ok(_) => {
+                        if ptx.send(m).is_err() {
+                            break;
+                        }
+                    }
+                    Err(_) => break,
+                }
+                if i >= 400 {
+                    break;
+                }
+            }
+        });
+        // wait until the emitter makes no progress for a while: it is blocked inside emit
+        let mut acked: Vec<String> = Vec::new();
+        loop {
+            match prx.recv_timeout(Duration::from_millis(120)) {
+                Ok(m) => acked.push(m),
+                Err(_) => break,
+            }
+        }
+        let blocked = !emitter.is_finished();
+        let mut bad: Vec<String> = Vec::new();
+        let mut flush_blocked = false;
+        if blocked {
+            let (ftx, frx) = crossbeam_channel::bounded::<Result<(), String>>(1);
+            let sink_f = sink.clone();
+            let flusher = std::thread::spawn(move || {
+                let r = sink_f.flush().map_err(|e| e.to_string());
+                let _ = ftx.send(r);
+            });
+            match frx.recv_timeout(Duration::from_millis(150)) {
+                Ok(Ok(())) => bad.push(format!(
+                    "flush() returned Ok while another thread is blocked inside the sink (receiver queue full): {} metrics acknowledged before the flush cannot have been sent yet",
+                    acked.len()
+                )),
+                Ok(Err(_)) => {}
+                Err(_) => flush_blocked = true,
+            }
+            // unclog and let everything finish
+            let _ = rx.unclog();
+            let deadline = Instant::now() + w;
+            let mut got: Vec<Vec<u8>> = Vec::new();
+            while (!emitter.is_finished() || !flusher.is_finished()) && Instant::now() < deadline {
+                got.extend(rx.recv_all(false));
+                while let Ok(m) = prx.try_recv() {
+                    acked.push(m);
+                }
+                std::thread::sleep(Duration::from_micros(200));
+            }
+            if !emitter.is_finished() || !flusher.is_finished() {
+                bad.push("emit/flush still blocked after the receiver was drained".into());
+            } else {
+                let _ = emitter.join();
+                let _ = flusher.join();
+                while let Ok(m) = prx.try_recv() {
+                    acked.push(m);
+                }
+                match Arc::try_unwrap(sink) {
+                    Ok(s) => {
+                        // the drop flushes through the blocking socket: keep the receiver drained meanwhile
+                        let dropper = std::thread::spawn(move || drop(s));
+                        let deadline = Instant::now() + w;
+                        while !dropper.is_finished() && Instant::now() < deadline {
+                            got.extend(rx.recv_all(false));
+                            std::thread::sleep(Duration::from_micros(200));
+                        }
+                        if !dropper.is_finished() {
+                            bad.push("dropping the sink blocked although the receiver is being drained".into());
+                        } else {
+                            let _ = dropper.join();
+                        }
+                    }
+                    Err(_) => bad.push("sink still shared".into()),
+                }
+                std::thread::sleep(Duration::from_millis(1));
+                got.extend(rx.recv_all(false));
+                let text: String = got.iter().filter(|d| d.as_slice() != FILLER).map(|d| String::from_utf8_lossy(d).into_owned()).collect();
+                let lines: Vec<&str> = text.split_terminator('\n').collect();
+                for m in &acked {
+                    let n = lines.iter().filter(|l| **l == m.as_str()).count();
+                    if n != 1 {
+                        bad.push(format!("acknowledged metric '{}' arrived {} times", m, n));
+                        break;
+                    }
+                }
+            }
+        } else {
+            let _ = rx.unclog();
+            let _ = emitter.join();
+            // never blocked (should not happen with a clogged receiver): drain while dropping
+            if let Ok(s) = Arc::try_unwrap(sink) {
+                let dropper = std::thread::spawn(move || drop(s));
+                let deadline = Instant::now() + w;
+                while !dropper.is_finished() && Instant::now() < deadline {
+                    let _ = rx.recv_all(false);
+                    std::thread::sleep(Duration::from_micros(200));
+                }
+            }
+        }
+        Outcome {
+            verdict: match bad.first() {
+                None => Ok(()),
+                Some(b) => Err(b.clone()),
+            },
+            nontrivial: blocked && flush_blocked,
+            fingerprint: util::hash_json(case),
+            classes: vec![if blocked { "emitter blocked inside the sink, flush issued behind it" } else { "emitter never blocked" }],
         }
     }
 }
